@@ -336,6 +336,12 @@ fn c16(tier: &str) -> Vec<String> {
             v.push(format!("queue:cap=u:script={}:prog=SJW:prod={}:P={}", sc, pr, if th { 3 } else { 2 }));
         }
     }
+    // a wrapped sink whose flush fails too (dead connection): still one handler call per failed metric
+    for sc in all_scripts(&['o', 'e', 'i'], 2) {
+        for order in ["hc", "ch"] {
+            v.push(format!("queue:cap=2:script={}:ff=1:order={}:prog=E0E0W", sc, order));
+        }
+    }
     v
 }
 
